@@ -11,7 +11,7 @@ from ..model import norm_text, AnalysisError
 from ..units import exc_key
 from .. import seqops
 from . import vbs, common
-from .vbs import ReaderRuns, reader_reads, concat_all, same_seq, MLIB
+from .vbs import ReaderRuns, reader_reads, concat_all, same_seq, MLIB, direct_framing, NOT_DIRECT
 
 
 def check(prog, res, tier):
@@ -71,6 +71,8 @@ def check(prog, res, tier):
                 node = exc.node
                 if ctx is None:
                     return [definite('library error raised without binary_context_data', node)]
+                if not direct_framing(p):
+                    return [soft(NOT_DIRECT, node)]
                 reads = [r for _e, r, _s in reader_reads(p)]
                 want = concat_all(p.interp, reads)
                 if want is None:
@@ -92,6 +94,8 @@ def check(prog, res, tier):
                 if not isinstance(rn, IntV):
                     return [definite('record_number is not an integer after a successful read')]
                 fails += need_eq0(p.store, rn.lin - k.lin - 1, f'counter is {p.store.canon(rn.lin)} after returning record k')
+                if not direct_framing(p):
+                    return fails + [soft(NOT_DIRECT)]
                 reads = [r for _e, r, _s in reader_reads(p)]
                 want = concat_all(p.interp, reads)
                 lr = obj.fields.get('last_record')
@@ -134,9 +138,25 @@ def check(prog, res, tier):
         def entry_p(it):
             exc = ExcV(ecls, [])
             rn = it.sym_int('rn', 1, None)
-            exc.fields.update(record_number=rn, binary_context_data=it.sym_bytes('ctx', lo=1), ex=ConstV(None))
-            it.user['rn'] = rn
+            # the error of the reader as the tools get it: raised by the reader itself (no cause), caused by a python error,
+            # or caused by the error of the message layer, which carries its own context data and its own cause
+            c = it.choose(3, 'cause of the reported error: none / a python exception / the error of the message layer') or 0
+            if c == 0:
+                ex = ConstV(None)
+            elif c == 1 or icls is None:
+                ex = ExcV(ValueError, [])
+            else:
+                ex = ExcV(icls, [])
+                ex.fields.update(record_number=ConstV(None), binary_context_data=it.sym_bytes('inner_ctx', lo=0),
+                                 ex=ExcV(ValueError, []))
+            ctx = it.sym_bytes('ctx', lo=1)
+            exc.fields.update(record_number=rn, binary_context_data=ctx, ex=ex)
+            it.user.update(rn=rn, ctx=ctx)
             return it.call_function(pfi, [exc], {})
+        try:
+            icls = prog.cls('iso8583.Iso8583DataError')
+        except AnalysisError:
+            icls = None
         runs_p = Runs(prog, entry_p, res=res)
 
         def chk_p(p, mode):
@@ -150,6 +170,31 @@ def check(prog, res, tier):
             return [definite('the operator report does not print err.record_number')]
         res.add(runs_p.judge('C10.d', 'print_exception_details prints the record number of the error', func_where(pfi),
                              "print(f'Error detected in record {err.record_number}')", chk_p, rule='C10.d.report',
+                             unknown_ok=benign_unknown))
+        def chk_ctx(p, mode):
+            if p.outcome != 'return':
+                return []
+            ctx = p.interp.user['ctx']
+            shown, opaque = [], False
+            for e in p.events:
+                if e.kind != 'ext-call':
+                    continue
+                for a in list(e.data.get('args') or []) + list((e.data.get('kwargs') or {}).values()):
+                    a = p.interp.resolve(a)
+                    if isinstance(a, SeqV) and a.kind == 'bytes':
+                        if same_seq(p, a, ctx):
+                            return []
+                        shown.append(a)
+                    elif isinstance(a, (UnkV, SymV, BoundExt, IterV, GenCallV)) or \
+                            isinstance(a, SeqV) and any(isinstance(g, Opq) for g in a.segs):
+                        opaque = True       # a value the interpretation lost track of may be the context data
+            if opaque:
+                return [soft('what the report hands to its output calls could not be followed')]
+            return [definite('the raw bytes of the record in error (binary_context_data of the error reported) never reach the '
+                             f'output of the report; bytes shown: {shown!r}', firm=True)]
+        res.add(runs_p.judge('C10.d', 'print_exception_details shows the context data of the error it reports (the raw record), '
+                                      'whatever caused that error', func_where(pfi),
+                             'if err.binary_context_data: hexdump(err.binary_context_data)', chk_ctx, rule='C10.d.report.ctx',
                              unknown_ok=benign_unknown))
     from .tools import cli_error_obs
     for ob in cli_error_obs(prog, res, 'report'):
